@@ -1484,4 +1484,200 @@ example : (match monopoleCall Rat.floor Rat.ceil (1 / 1000) (fun x => x) exU exO
     | (c, .error _) => (c, 0, 0, ⟨false, false, false⟩))
     = (⟨0, 0, 1 / 2⟩, 8, 8, ⟨true, false, false⟩) := by decide +kernel
 
+
+/-! ## optimality of the two searches of `__set_cells` -/
+
+/-- the quantity the two searches of `__set_cells` maximise, without square roots: the signed squared cosine of the angle
+    between the candidate and the target direction, times the squared length of the target (`d = c·t`, `m2 = |c|²`:
+    `sign(d) d² / m2 = |t|² cos|cos|`), a strictly increasing function of the cosine, i.e. strictly decreasing in the
+    angle `vect_angle` returns. -/
+def cosKey (c : Cand K) : K := if c.d < 0 then -(c.d * c.d / c.m2) else c.d * c.d / c.m2
+
+theorem cosLt_iff (a b : Cand K) (ha : 0 < a.m2) (hb : 0 < b.m2) : cosLt a b = true ↔ cosKey a < cosKey b := by
+  unfold cosLt cosKey
+  by_cases hbd : b.d < 0 <;> by_cases had : a.d < 0 <;> simp only [hbd, had, if_true, if_false, decide_eq_true_eq]
+  · rw [neg_lt_neg_iff, div_lt_div_iff₀ hb ha]
+  · simp only [Bool.false_eq_true, false_iff, not_lt]
+    have h1 : 0 < b.d * b.d / b.m2 := div_pos (mul_pos_of_neg_of_neg hbd hbd) hb
+    have h2 : 0 ≤ a.d * a.d / a.m2 := div_nonneg (mul_self_nonneg _) ha.le
+    linarith
+  · simp only [true_iff]
+    have h1 : 0 < a.d * a.d / a.m2 := div_pos (mul_pos_of_neg_of_neg had had) ha
+    have h2 : 0 ≤ b.d * b.d / b.m2 := div_nonneg (mul_self_nonneg _) hb.le
+    linarith
+  · rw [div_lt_div_iff₀ ha hb]
+
+theorem bestStep_optimal (l : List (Cand K)) (hm : ∀ c ∈ l, 0 < c.m2) :
+    ∀ (init : Option (Cand K)), (∀ b, init = some b → 0 < b.m2) → ∀ c, l.foldl bestStep init = some c →
+      (∀ b, init = some b → cosKey b ≤ cosKey c) ∧ ∀ x ∈ l, cosKey x ≤ cosKey c := by
+  induction l with
+  | nil =>
+    intro init _ c h
+    simp only [List.foldl_nil] at h
+    exact ⟨fun b hb => (by rw [h] at hb; cases hb; exact le_refl _), fun x hx => (by cases hx)⟩
+  | cons x r ih =>
+    intro init hinit c h
+    simp only [List.foldl_cons] at h
+    have hx : 0 < x.m2 := hm x List.mem_cons_self
+    have hr : ∀ c ∈ r, 0 < c.m2 := fun c hc => hm c (List.mem_cons_of_mem _ hc)
+    cases init with
+    | none =>
+      have := ih hr (bestStep none x) (by intro b hb; simp only [bestStep, Option.some.injEq] at hb; rw [← hb]; exact hx) c h
+      refine ⟨fun b hb => (by cases hb), ?_⟩
+      intro y hy
+      rcases List.mem_cons.mp hy with rfl | hy
+      · exact this.1 _ rfl
+      · exact this.2 y hy
+    | some b =>
+      have hb : 0 < b.m2 := hinit b rfl
+      by_cases hlt : cosLt b x = true
+      · have e : bestStep (some b) x = some x := by simp [bestStep, hlt]
+        rw [e] at h
+        have := ih hr (some x) (by intro b' hb'; cases hb'; exact hx) c h
+        have hbx := (cosLt_iff b x hb hx).mp hlt
+        refine ⟨fun b' hb' => (by cases hb'; exact (hbx.le).trans (this.1 x rfl)), ?_⟩
+        intro y hy
+        rcases List.mem_cons.mp hy with rfl | hy
+        · exact this.1 _ rfl
+        · exact this.2 y hy
+      · have e : bestStep (some b) x = some b := by simp [bestStep, hlt]
+        rw [e] at h
+        have := ih hr (some b) (by intro b' hb'; cases hb'; exact hb) c h
+        have hbx : ¬ cosKey b < cosKey x := fun hh => hlt ((cosLt_iff b x hb hx).mpr hh)
+        refine ⟨fun b' hb' => (by cases hb'; exact this.1 b rfl), ?_⟩
+        intro y hy
+        rcases List.mem_cons.mp hy with rfl | hy
+        · exact (not_lt.mp hbx).trans (this.1 b rfl)
+        · exact this.2 y hy
+
+theorem bestOf_optimal (l : List (Cand K)) (hm : ∀ c ∈ l, 0 < c.m2) (c : Cand K) (h : bestOf l = some c) :
+    ∀ x ∈ l, cosKey x ≤ cosKey c :=
+  (bestStep_optimal l hm none (by intro b hb; cases hb) c h).2
+
+/-- **searchM_optimal**: among ALL lattice vectors within the index bound that lie in the slip plane, the one
+    `__set_cells` selects for the in-plane box vector makes the smallest angle with the edge direction `m` (no candidate
+    has a larger cosine). -/
+theorem searchM_optimal (pv : M3 K) (N M : V3 K) (mi : Int)
+    (hpos : ∀ v ∈ allUvws mi, 0 < V3.normSq (cart pv v)) (cm : Cand K) (h : searchM pv N M mi = some cm) :
+    ∀ v ∈ allUvws mi, V3.dot (cart pv v) N = 0 → cosKey (mkCand pv M v) ≤ cosKey cm := by
+  intro v hv hin
+  apply bestOf_optimal _ _ cm h
+  · exact List.mem_map.mpr ⟨v, List.mem_filter.mpr ⟨hv, by simp [inPlane, hin]⟩, rfl⟩
+  · intro c hc
+    obtain ⟨w, hw, rfl⟩ := List.mem_map.mp hc
+    exact hpos w (List.mem_filter.mp hw).1
+
+/-- **searchN_optimal**: the vector selected for the out-of-plane box vector makes the smallest angle with the slip-plane
+    normal among all lattice vectors within the index bound. -/
+theorem searchN_optimal (pv : M3 K) (N : V3 K) (mi : Int)
+    (hpos : ∀ v ∈ allUvws mi, 0 < V3.normSq (cart pv v)) (cn : Cand K) (h : searchN pv N mi = some cn) :
+    ∀ v ∈ allUvws mi, cosKey (mkCand pv N v) ≤ cosKey cn := by
+  intro v hv
+  apply bestOf_optimal _ _ cn h
+  · exact List.mem_map.mpr ⟨v, hv, rfl⟩
+  · intro c hc
+    obtain ⟨w, hw, rfl⟩ := List.mem_map.mp hc
+    exact hpos w hw
+
+
+/-- non-vacuity: in the cubic example the in-plane vector found for `m = y` is `[0, 1, 0]` itself and no in-plane candidate
+    is closer. -/
+example : (searchM exPv (⟨0, 0, 1⟩ : V3 ℚ) ⟨0, 1, 0⟩ 1).map (fun c => (c.v, cosKey c)) = some (⟨0, 1, 0⟩, 1) := by
+  decide +kernel
+
+/-! ## the ceiling and the exact multiplier -/
+
+/-- the specification of the ceiling: the least integer not below `x`. -/
+theorem ceilOfFloor_spec (fl : K → Int) (hfl : C05.IsFloor fl) (x : K) :
+    x ≤ ((ceilOfFloor fl x : Int) : K) ∧ ((ceilOfFloor fl x : Int) : K) < x + 1 ∧
+    ∀ n : Int, x ≤ ((n : Int) : K) → ceilOfFloor fl x ≤ n := by
+  obtain ⟨h1, h2⟩ := hfl (-x)
+  unfold ceilOfFloor
+  refine ⟨?_, ?_, ?_⟩
+  · rw [Int.cast_neg]; linarith
+  · rw [Int.cast_neg]; linarith
+  · intro n hn
+    by_contra hc
+    have hc' : n + 1 ≤ -(fl (-x)) := by omega
+    have : ((n + 1 : Int) : K) ≤ ((-(fl (-x)) : Int) : K) := Int.cast_le.mpr hc'
+    rw [Int.cast_neg, Int.cast_add, Int.cast_one] at this
+    linarith
+
+/-- **minMult_least**: the multiplier a minimum length gives is the LEAST integer that is at least the requested
+    multiplier, at least `q = ceil(min / period)`, and even when the direction is not the dislocation line. -/
+theorem minMult_least (line i : Nat) (q cur n : Int) (h1 : cur ≤ n) (h2 : q ≤ n)
+    (h3 : i ≠ line → n % 2 = 0) : minMult line i (some q) cur ≤ n := by
+  simp only [minMult]
+  by_cases hi : i = line
+  · simp only [hi, ne_eq, not_true_eq_false, false_and, if_false]; split_ifs <;> omega
+  · have := h3 hi
+    simp only [ne_eq, hi, not_false_eq_true, true_and]
+    split_ifs <;> omega
+
+
+example : ceilOfFloor Rat.floor (5 / 2 : ℚ) = 3 ∧ ceilOfFloor Rat.floor (3 : ℚ) = 3 ∧ ceilOfFloor Rat.floor (-1 / 2 : ℚ) = 0 := by
+  decide +kernel
+example : minMult 0 1 (some 3) 2 = 4 ∧ minMult 0 0 (some 3) 2 = 3 ∧ minMult 0 1 (some 3) 6 = 6 := by decide
+
+/-! ## `periodicarray` as a whole -/
+
+/-- **arrayCall_spec** (end to end): for every accepted call `periodicarray(sizemults, amin, bmin, cmin, shift, shiftindex,
+    shiftscale, center, centerscale, boundarywidth, boundaryscale, linear, cutoff)` the object afterwards holds the shift
+    used; with `ref` the rotated cell replicated by the (positive) multipliers, shifted by the requested shift and wrapped:
+    the number of atoms removed is the integer `expected` implied by the volume of the tilted box, the systems are
+    periodic in the two in-plane directions only, `old_id` is increasing and lists exactly the non-duplicates, and atom
+    `k` of the trimmed reference system and of the dislocation system is reference atom `old_id[k]`, displaced, modulo
+    the two periodic box vectors only. -/
+theorem arrayCall_spec (fl : K → Int) (rnd : K → Int) (ceil : K → Int) (pad : K) (u : V3 K → V3 K) (o : Orient) (hl : o.line < 3)
+    (rcell : Sys K) (lens : V3 K) (ucellA : K) (nsym : Nat) (shifts : List (V3 K)) (cur cur' : V3 K) (a : CallArgs K)
+    (burgers : V3 K) (linear : Bool) (cutoff : Option K) (atolSlip atolInt rtolInt : K) (r : ArrayOut K)
+    (h : arrayCall fl rnd ceil pad u o rcell lens ucellA nsym shifts cur a burgers linear cutoff atolSlip atolInt rtolInt
+      = (cur', .ok r)) :
+    ∃ hd : Head K, callHead ceil false o.line rcell.box.vects lens ucellA shifts cur a = (cur', .ok hd) ∧
+      hd.shift = cur' ∧
+      (if a.sh.given then setShift rcell.box.vects shifts a.sh = .ok hd.shift else hd.shift = cur) ∧
+      (0 < hd.sizes.a.mult ∧ 0 < hd.sizes.b.mult ∧ 0 < hd.sizes.c.mult) ∧
+      periodicArray fl rnd pad u o (baseSystem fl pad rcell hd.sizes hd.shift) burgers
+        (resolveCenter rcell.box.vects a.center a.centerscale) linear (resolveWidth ucellA a.width a.widthscale)
+        (cutoff.getD half) atolSlip atolInt rtolInt nsym = .ok r ∧
+      (M3.det (tiltedVects o (baseSystem fl pad rcell hd.sizes hd.shift).box.vects burgers) ≠ 0 →
+        ((baseSystem fl pad rcell hd.sizes hd.shift).atoms.length : Int) - (r.disl.atoms.length : Int) = r.expected ∧
+        r.disl.pbc = ⟨o.cut ≠ 0, o.cut ≠ 1, o.cut ≠ 2⟩ ∧
+        r.oldId.Pairwise (· < ·) ∧
+        (∀ i, i ∈ r.oldId ↔ i < (baseSystem fl pad rcell hd.sizes hd.shift).atoms.length ∧ i ∉ r.dups) ∧
+        r.base.atoms.length = r.oldId.length ∧ r.disl.atoms.length = r.oldId.length) := by
+  unfold arrayCall at h
+  rcases hh : callHead ceil false o.line rcell.box.vects lens ucellA shifts cur a with ⟨c', rr⟩
+  rw [hh] at h
+  cases rr with
+  | error e => simp at h
+  | ok hd =>
+    simp only at h
+    cases hp : periodicArray fl rnd pad u o (baseSystem fl pad rcell hd.sizes hd.shift) burgers hd.center linear hd.width
+        (cutoff.getD half) atolSlip atolInt rtolInt nsym with
+    | error e => rw [hp] at h; cases e <;> simp at h
+    | ok r' =>
+      rw [hp] at h
+      simp only [Prod.mk.injEq, Except.ok.injEq] at h
+      obtain ⟨rfl, rfl⟩ := h
+      obtain ⟨hsz, hshift, hreq, hcen, hwid, _⟩ := callHead_ok_spec ceil false o.line rcell.box.vects lens ucellA shifts
+        cur c' a hd hh
+      obtain ⟨m, _, hsizes⟩ := callSizes_eq_sizes ceil o.line lens a.mins a.mults hd.sizes hsz
+      have hpos := (sizes_even_symmetric o.line hl m _ _ _ hd.sizes hsizes).1
+      refine ⟨hd, rfl, hshift, hreq, hpos, by rw [← hcen, ← hwid]; exact hp, ?_⟩
+      intro hdet
+      obtain ⟨h1, h2, h3, h4, _⟩ := array_old_id fl rnd pad u o _ burgers hd.center linear hd.width (cutoff.getD half)
+        atolSlip atolInt rtolInt nsym r' hp hdet
+      obtain ⟨hc, _, hpbc⟩ := array_deletion_count_partial fl rnd pad u o _ burgers hd.center linear hd.width
+        (cutoff.getD half) atolSlip atolInt rtolInt nsym r' hp hdet
+      exact ⟨hc, hpbc, h1, h2, h3, h4⟩
+
+
+example : (match arrayCall Rat.floor C14.roundHalfEven (ceilOfFloor Rat.floor) (1 / 1000) exU exO exRcell ⟨1, 1, 1⟩ 1 1
+      [⟨0, 0, 1 / 4⟩, ⟨0, 0, 1 / 2⟩] ⟨0, 0, 1 / 4⟩ { exArgs with width := 0 } ⟨1, 0, 0⟩ true none (1 / 100000000)
+      (1 / 100000000) (1 / 100000) with
+    | (c, .ok r) => (c, r.oldId.length, r.expected, r.disl.pbc)
+    | (c, .error _) => (c, 0, -1, ⟨false, false, false⟩))
+    = (⟨0, 0, 1 / 2⟩, 8, 0, ⟨true, true, false⟩) := by decide +kernel
+
 end Atomman.C13
